@@ -175,52 +175,7 @@ func checkC09(rc *RunCtx) *Report {
 			x := &Explorer{RC: rc, Rep: rep, Sc: sc}
 			probes := 0
 			cands := newCandidates(true)
-			x.Hooks.OnState = func(x *Explorer, s *E1State) {
-				if !s.Idle() {
-					return
-				}
-				w := x.W
-				// (i) fixed point: re-examining any object changes nothing
-				w.Restore(s.snap)
-				for _, t := range w.allObjectIDs() {
-					probes++
-					res := w.Step(t.Ctrl, t.ID)
-					if res.Effects > 0 || res.Panic != "" {
-						t := t
-						class := c09Class(w, s, t, res)
-						what := fmt.Sprintf("scenario %q: controllers idle, but re-examining %s %s performs %v (panic %q)", sc.Name, t.Ctrl, t.ID, res.Writes, res.Panic)
-						cands.consider(x, rep, sc, s, class, what, func(w *World) (bool, string) {
-							r := w.Step(t.Ctrl, t.ID)
-							return r.Effects > 0 || r.Panic != "", fmt.Sprintf("re-examining %s %s performs %v", t.Ctrl, t.ID, r.Writes)
-						})
-						w.Restore(s.snap)
-					}
-				}
-				// (ii) all targets connected => every transaction final
-				w.Restore(s.snap)
-				allConnected := true
-				for _, t := range sc.Cfg.Targets {
-					if w.conns.LiveConn(topoID(t)) == "" {
-						allConnected = false
-					}
-				}
-				v := w.View()
-				outcome := ""
-				for _, t := range v.Txs {
-					outcome += fmt.Sprintf("tx%d:%s ", t.Index, t.Status.State)
-					if allConnected && !TxTerminal(t) {
-						idx := t.Index
-						cands.consider(x, rep, sc, s, "stranded/"+txPhasesText(t.Status.Phases),
-							fmt.Sprintf("scenario %q: controllers idle with all targets connected, but transaction %d is %s (%s)", sc.Name, t.Index, t.Status.State, txPhasesText(t.Status.Phases)),
-							func(w *World) (bool, string) {
-								tx := w.View().Tx(idx)
-								return tx != nil && !TxTerminal(tx), fmt.Sprintf("transaction %d is %s", idx, tx.Status.State)
-							})
-						w.Restore(s.snap)
-					}
-				}
-				x.terminals.Add(sc.Name + outcome)
-			}
+			x.Hooks.OnState = func(x *Explorer, s *E1State) { c09IdleOracle(x, s, sc, cands, &probes) }
 			x.Run()
 			cands.resolve(x, rep, sc)
 			fmt.Printf("C09 %-50s states=%d transitions=%d idle=%d depth=%d capped=%v probes=%d conflicts=%d\n", sc.Name, x.States, x.Transitions, x.IdleStates, x.MaxDepth, x.Capped, probes, x.conflicts)
@@ -265,6 +220,59 @@ func checkC09(rc *RunCtx) *Report {
 		return n
 	}()})
 	return rep
+}
+
+// c09IdleOracle: on an idle state, (i) one more pass of every reconciler over every object has no effect,
+// (ii) with all targets connected every transaction is final.
+func c09IdleOracle(x *Explorer, s *E1State, sc *Scenario, cands *candidates, probesp *int) {
+	rep := x.Rep
+	probes := *probesp
+	defer func() { *probesp = probes }()
+	if !s.Idle() {
+		return
+	}
+	w := x.W
+	// (i) fixed point: re-examining any object changes nothing
+	w.Restore(s.snap)
+	for _, t := range w.allObjectIDs() {
+		probes++
+		res := w.Step(t.Ctrl, t.ID)
+		if res.Effects > 0 || res.Panic != "" {
+			t := t
+			class := c09Class(w, s, t, res)
+			what := fmt.Sprintf("scenario %q: controllers idle, but re-examining %s %s performs %v (panic %q)", sc.Name, t.Ctrl, t.ID, res.Writes, res.Panic)
+			cands.consider(x, rep, sc, s, class, what, func(w *World) (bool, string) {
+				r := w.Step(t.Ctrl, t.ID)
+				return r.Effects > 0 || r.Panic != "", fmt.Sprintf("re-examining %s %s performs %v", t.Ctrl, t.ID, r.Writes)
+			})
+			w.Restore(s.snap)
+		}
+	}
+	// (ii) all targets connected => every transaction final
+	w.Restore(s.snap)
+	allConnected := true
+	for _, t := range sc.Cfg.Targets {
+		if w.conns.LiveConn(topoID(t)) == "" {
+			allConnected = false
+		}
+	}
+	v := w.View()
+	outcome := ""
+	for _, t := range v.Txs {
+		outcome += fmt.Sprintf("tx%d:%s ", t.Index, t.Status.State)
+		if allConnected && !TxTerminal(t) {
+			idx := t.Index
+			cands.consider(x, rep, sc, s, "stranded/"+txPhasesText(t.Status.Phases),
+				fmt.Sprintf("scenario %q: controllers idle with all targets connected, but transaction %d is %s (%s)", sc.Name, t.Index, t.Status.State, txPhasesText(t.Status.Phases)),
+				func(w *World) (bool, string) {
+					tx := w.View().Tx(idx)
+					return tx != nil && !TxTerminal(tx), fmt.Sprintf("transaction %d is %s", idx, tx.Status.State)
+				})
+			w.Restore(s.snap)
+		}
+	}
+	x.terminals.Add(sc.Name + outcome)
+
 }
 
 // c09Class names the cause of a non-fixed-point: which reconciler branch would still act.
